@@ -226,8 +226,108 @@ let run_example psz god out =
   close_out oc;
   Printf.printf "example written bytes=%d\n" (List.length bs)
 
+
+(* ---- writer-model correspondence (C10): the extracted encode_tree applied to a logical tree dumped by the
+   harness (Table::verif_shape + contents) must reproduce, byte for byte, the covered bytes the crate left in
+   the image at the same page numbers, and the root BtreeHeader stored in the catalog.
+   tree file: see harness/src/c10_tree.rs *)
+type tnode = TL of pagenum * (n list * n list) list | TB of pagenum * int * n list list
+let parse_tree_file path =
+  let ic = open_in path in
+  let lines = ref [] in
+  (try while true do lines := input_line ic :: !lines done with End_of_file -> ());
+  close_in ic;
+  let lines = List.rev !lines in
+  let kv s = match String.index_opt s '=' with
+    | Some i -> (String.sub s 0 i, String.sub s (i + 1) (String.length s - i - 1)) | None -> (s, "") in
+  let hdr = ref [] and nodes = ref [] in
+  List.iter (fun l ->
+    match String.split_on_char ' ' (String.trim l) with
+    | "T" :: rest -> hdr := List.map kv rest
+    | "N" :: _ :: "L" :: r :: i :: o :: _ :: es ->
+      let pn = { pn_region = n_of_int (int_of_string r); pn_index = n_of_int (int_of_string i); pn_order = n_of_int (int_of_string o) } in
+      let es = List.filter (fun x -> x <> "") es in
+      nodes := TL (pn, List.map (fun e -> match String.split_on_char ':' e with
+          | [k; v] -> (bytes_of_hex k, bytes_of_hex v) | _ -> failwith ("bad entry " ^ e)) es) :: !nodes
+    | "N" :: _ :: "B" :: r :: i :: o :: nc :: ks ->
+      let pn = { pn_region = n_of_int (int_of_string r); pn_index = n_of_int (int_of_string i); pn_order = n_of_int (int_of_string o) } in
+      nodes := TB (pn, int_of_string nc, List.map bytes_of_hex (List.filter (fun x -> x <> "") ks)) :: !nodes
+    | [""] | [] -> ()
+    | _ -> failwith ("bad tree line " ^ l)) lines;
+  (!hdr, List.rev !nodes)
+let rec build_wtree (nodes : tnode list) : wtree * tnode list =
+  match nodes with
+  | [] -> failwith "tree file: node list ends early"
+  | TL (pn, es) :: rest -> (WLeaf (pn, es), rest)
+  | TB (pn, nc, ks) :: rest ->
+    let rec kids k acc rest = if k = 0 then (List.rev acc, rest) else
+        let (c, rest') = build_wtree rest in kids (k - 1) (c :: acc) rest' in
+    let (cs, rest') = kids nc [] rest in
+    (WBranch (pn, cs, ks), rest')
+let width_of_string s = if s = "var" then None else Some (n_of_int (int_of_string s))
+let run_treecmp treefile image =
+  let (hdr, nodes) = parse_tree_file treefile in
+  let get k = try List.assoc k hdr with Not_found -> failwith ("tree file: no " ^ k) in
+  let ks = width_of_string (get "ks") and vs = width_of_string (get "vs") in
+  let fill = n_of_int (int_of_string (get "fill")) in
+  let name = bytes_of_hex (get "name") in
+  let s = read_string image in
+  let len = String.length s in
+  let (hb, file_len, chunks) = load image in
+  match decode_header hb with
+  | Err (m, _) -> Printf.printf "treecmp ERROR header %s\n" (string_of_chars m)
+  | Ok h ->
+    let g = choose_geom h file_len in
+    (* the root header the catalog of the image stores for the table *)
+    let stored = (match decode_chunks hb file_len chunks SlotPrimary with
+      | Err (m, _) -> Error ("decode: " ^ string_of_chars m)
+      | Ok d -> (match find_table name d.di_data.fo_tables with
+          | None -> Error "table not in the catalog"
+          | Some t -> Ok t.tb_def)) in
+    (match stored with
+     | Error e -> Printf.printf "treecmp ERROR %s\n" e
+     | Ok td ->
+       if nodes = [] then
+         Printf.printf "treecmp name=%s empty=1 nodes=0 pages_equal=0 pages_differ=0 bytes=0 root_ok=%d limits=1 placed=1 widths_ok=%d\n"
+           (text_of_bytes name) (b2i (td.td_root = None && int_of_n td.td_len = 0)) (b2i (td.td_ks = ks && td.td_vs = vs))
+       else begin
+         let (w, rest) = build_wtree nodes in
+         if rest <> [] then failwith "tree file: nodes left over";
+         let (pages, bh) = encode_tree fill ks vs w in
+         let equal = ref 0 and differ = ref 0 and total = ref 0 in
+         let diffs = Buffer.create 64 in
+         List.iter (fun (pn, bytes) ->
+           let start = int_of_n (page_start g pn) in
+           let n = List.length bytes in
+           total := !total + n;
+           let first = ref (-1) in
+           List.iteri (fun i b ->
+             if !first < 0 then begin
+               let have = if start + i < len then Char.code s.[start + i] else -1 in
+               if have <> int_of_n b then first := i end) bytes;
+           if !first < 0 && n <= int_of_n (page_len g pn) then incr equal else begin
+             incr differ;
+             let i = max 0 !first in
+             let lo = max 0 (i - 4) in
+             let m = String.concat "" (List.filteri (fun j _ -> j >= lo && j < i + 12) (List.map (fun b -> Printf.sprintf "%02x" (int_of_n b)) bytes)) in
+             let im = String.concat "" (List.init (min 16 (max 0 (len - start - lo))) (fun j -> Printf.sprintf "%02x" (Char.code s.[start + lo + j]))) in
+             Buffer.add_string diffs (Printf.sprintf "treediff page=%s model_len=%d page_len=%s first_offset=%d from=%d model=%s image=%s\n"
+                                        (pn_s pn) n (dec_of_n (page_len g pn)) !first lo m im) end) pages;
+         let root_ok = (match td.td_root with
+           | Some r -> r.bh_root = bh.bh_root && r.bh_sum = bh.bh_sum && r.bh_len = bh.bh_len && td.td_len = bh.bh_len
+           | None -> false) in
+         let placed = List.for_all (fun nd -> int_of_n (wnode_len fill ks vs nd) <= int_of_n (page_len g (match nd with WLeaf (p, _) -> p | WBranch (p, _, _) -> p))) (wnodes w) in
+         Printf.printf "treecmp name=%s empty=0 nodes=%d pages_equal=%d pages_differ=%d bytes=%d root_ok=%d limits=%d placed=%d widths_ok=%d height=%d\n"
+           (text_of_bytes name) (List.length pages) !equal !differ !total (b2i root_ok) (b2i (writer_okb fill ks vs w)) (b2i placed)
+           (b2i (td.td_ks = ks && td.td_vs = vs)) (let rec nat_to_int = function O -> 0 | S k -> 1 + nat_to_int k in nat_to_int (wheight w));
+         if not root_ok then
+           Printf.printf "treediff root model=%s stored=%s table_len=%s\n" (bhdr_s (Some bh)) (bhdr_s td.td_root) (dec_of_n td.td_len);
+         print_string (Buffer.contents diffs)
+       end)
+
 let dispatch (args : string list) =
   match args with
+  | ["treecmp"; tf; img] -> run_treecmp tf img
   | ["xxh"] -> run_xxh ()
   | ["example"; psz; god; out] -> run_example psz god out
   | [what; path] when List.mem what ["header"; "verdict"; "pages"; "contents"; "system"; "dump"] -> run_image what path "primary"
